@@ -1,4 +1,4 @@
-CONSTANTS Family = "enc" MaxBody = 3 Alpha = {97, 13} NExt1 = 8 NExt2 = 4 MaxStr = 0 Alpha2 = {}
+CONSTANTS Family = "enc" MaxBody = 3 Alpha = {97, 13} NExt1 = 9 NExt2 = 4 MaxStr = 0 Alpha2 = {}
 INIT Init
 NEXT Next
 INVARIANT Laws
